@@ -29,8 +29,9 @@ META = {
             "verified: CPython json/open/float()/dict, Pydantic's validation of StdioParameters, anyio.open_process -> execve, "
             "argparse, send_initialize (C03) and the stdio transport (C05/C06/C16). Domain: strings without NUL / lone "
             "surrogates, env keys non-empty without '=', timeouts that are plain decimal literals of <= 15 significant digits, "
-            "no duplicate JSON keys, commands that exist and are executable, UTF-8 locale. Real processes, wall clock: every "
-            "failing case is re-run once before it is believed.",
+            "no duplicate JSON keys, commands that exist and are executable. SrcJson = 'the file holds this value as UTF-8 JSON "
+            "text' whatever the process locale (launching is only exercised under a UTF-8 locale: CPython cannot pass non-ASCII "
+            "argv through execve otherwise). Real processes, wall clock: every failing case is re-run once before it is believed.",
     "technique": "Coq proof (case analysis on the JSON shape of a valid configuration, induction over the list of names, "
                  "reflection lemmas for the boolean checkers) over a hand-written model; differential correspondence with "
                  "real child processes",
@@ -311,6 +312,11 @@ def gen_valid_case(rng, cid):
     dims.append("file:" + ("ascii-escapes" if ser["ensure_ascii"] else "raw-utf8"))
     path_kind = rng.choice(["plain", "space-unicode"])
     dims.append("config-path:" + path_kind)
+    b = rng.random()
+    backend = "fallback" if b < 0.2 else "pydantic"
+    loc = "legacy-ascii" if b > 0.88 else "utf-8"
+    dims.append("backend:" + backend)
+    dims.append("process-locale:" + loc)
     hostenv = {"C20_SECRET": "must-not-leak"}
     h = rng.random()
     if h < 0.3:
@@ -347,7 +353,13 @@ def gen_valid_case(rng, cid):
     else:
         lists.append([])
         dims.append("runner-names:empty")
-    return {"kind": "valid", "id": cid, "config": cfg, "ser": ser, "path_kind": path_kind, "hostenv": hostenv,
+    if loc == "legacy-ascii":
+        # CPython itself cannot pass non-ASCII argv / environment / paths to execve or open() under such a locale, so only
+        # the loader (which merely has to READ a UTF-8 JSON file) is exercised there
+        path_kind, hostenv, cli_names, lists = "plain", {}, [], []
+        dims[:] = [d for d in dims if not d.startswith(("config-path:", "hostenv:", "runner-names:"))]
+    return {"kind": "valid", "id": cid, "config": cfg, "ser": ser, "path_kind": path_kind, "hostenv": hostenv, "backend": backend,
+            "locale": loc,
             "loader_names": loader_names, "cli_names": cli_names, "runner_lists": lists, "dims": dims}
 
 
@@ -460,38 +472,59 @@ def materialise(case, rundir, witness):
     configured = set(src[1]["mcpServers"]) if case["kind"] == "valid" else set()
     only = case.get("only")          # replay: a single step
     for n in case.get("loader_names", []):
-        steps.append({"ep": "loader", "name": n, "launch": n in configured})
+        steps.append({"ep": "loader", "name": n, "launch": n in configured and case.get("locale", "utf-8") == "utf-8"})
     for n in case.get("cli_names", []):
         steps.append({"ep": "cli", "name": n})
     for l in case.get("runner_lists", []):
         steps.append({"ep": "runner", "names": l})
     if only is not None:
         steps = [only]
-    job = {"id": case["id"], "path": path, "dirs": dirs, "hostenv": case.get("hostenv", {}), "steps": steps}
+    job = {"id": case["id"], "path": path, "dirs": dirs, "hostenv": case.get("hostenv", {}), "steps": steps,
+           "backend": case.get("backend", "pydantic"), "locale": case.get("locale", "utf-8")}
     return job, src
 
 
+def worker_env(backend, loc="utf-8"):
+    """A controlled host environment for the worker processes: nothing of the invoking shell's environment reaches
+    the code under test (or the evidence) except PATH and HOME."""
+    env = {"PATH": os.environ.get("PATH", "/usr/bin:/bin"), "HOME": os.environ.get("HOME", "/root"),
+           "TERM": "xterm", "SHELL": "/bin/bash", "USER": "verif", "LOGNAME": "verif",
+           "PYTHONPATH": os.path.join(lib.REPO, "src"), "PYTHONHASHSEED": "0", "PYTHONDONTWRITEBYTECODE": "1",
+           "C20_HOST_ONLY": "must-not-reach-a-child"}
+    if backend == "fallback":
+        env["MCP_FORCE_FALLBACK"] = "1"
+    if loc == "legacy-ascii":
+        # a process whose locale encoding is not UTF-8 (what a Windows code page or a C locale without UTF-8 mode gives)
+        env.update({"LC_ALL": "C", "PYTHONUTF8": "0", "PYTHONCOERCECLOCALE": "0"})
+    else:
+        env.update({"LC_ALL": "C.UTF-8", "PYTHONUTF8": "1"})
+    return env
+
+
 def run_workers(jobs, rundir, tag, nworkers=None):
-    """Distribute the jobs over worker processes; returns {case id: result}."""
+    """Distribute the jobs over worker processes (one group per validation back end); returns {case id: result}."""
     if not jobs:
         return {}
-    nw = max(1, min(nworkers or NWORKERS, len(jobs)))
+    total = max(1, min(nworkers or NWORKERS, len(jobs)))
     procs = []
-    env = dict(os.environ)
-    env["PYTHONPATH"] = os.path.join(lib.REPO, "src")
-    env["PYTHONHASHSEED"] = "0"
-    env["PYTHONDONTWRITEBYTECODE"] = "1"
-    for w in range(nw):
-        mine = jobs[w::nw]
-        jp = os.path.join(rundir, f"job-{tag}-{w}.json")
-        op = os.path.join(rundir, f"out-{tag}-{w}.json")
-        with open(jp, "w", encoding="utf-8") as f:
-            json.dump({"cases": mine}, f)
-        p = subprocess.Popen([lib.PY, os.path.join(HERE, "c20_worker.py"), jp, op], env=env, cwd=rundir,
-                             stdin=subprocess.DEVNULL, stdout=subprocess.DEVNULL, stderr=subprocess.DEVNULL)
-        procs.append((p, op, len(mine)))
+    for backend, loc in (("pydantic", "utf-8"), ("fallback", "utf-8"), ("pydantic", "legacy-ascii")):
+        mine_all = [j for j in jobs if (j.get("backend", "pydantic"), j.get("locale", "utf-8")) == (backend, loc)]
+        if not mine_all:
+            continue
+        weight = lambda js: sum(1 + 3 * len(j["steps"]) for j in js)
+        nw = max(1, min(len(mine_all), round(total * weight(mine_all) / weight(jobs))))
+        mine_all.sort(key=lambda j: -len(j["steps"]))
+        for w in range(nw):
+            mine = mine_all[w::nw]
+            jp = os.path.join(rundir, f"job-{tag}-{backend}-{loc}-{w}.json")
+            op = os.path.join(rundir, f"out-{tag}-{backend}-{loc}-{w}.json")
+            with open(jp, "w", encoding="utf-8") as f:
+                json.dump({"cases": mine}, f)
+            p = subprocess.Popen([lib.PY, os.path.join(HERE, "c20_worker.py"), jp, op], env=worker_env(backend, loc), cwd=rundir,
+                                 stdin=subprocess.DEVNULL, stdout=subprocess.DEVNULL, stderr=subprocess.DEVNULL)
+            procs.append((p, op, len(mine), backend, loc))
     out = {}
-    for p, op, n in procs:
+    for p, op, n, backend, loc in procs:
         try:
             p.wait(timeout=120 + 60 * n)
         except subprocess.TimeoutExpired:
@@ -505,6 +538,10 @@ def run_workers(jobs, rundir, tag, nworkers=None):
                 pass
             raise lib.HarnessError(f"C20 worker failed rc={p.returncode}: {log}")
         data = json.load(open(op, encoding="utf-8"))
+        if data.get("backend") != backend:
+            raise lib.HarnessError(f"worker ran under back end {data.get('backend')!r}, wanted {backend!r}")
+        if (data.get("encoding", "").lower().replace("-", "") == "utf8") != (loc == "utf-8"):
+            raise lib.HarnessError(f"worker ran with locale encoding {data.get('encoding')!r}, wanted {loc}")
         for r in data["results"]:
             out[r["id"]] = r
     return out
@@ -526,7 +563,7 @@ def refusers_of(src):
 
 
 def compact_case(case, step):
-    c = {k: case[k] for k in ("kind", "config", "ser", "path_kind", "hostenv", "text", "sub") if k in case}
+    c = {k: case[k] for k in ("kind", "config", "ser", "path_kind", "hostenv", "text", "sub", "backend", "locale") if k in case}
     c["step"] = step
     return c
 
@@ -625,7 +662,8 @@ class Judge:
                 cc = compact_case(case, step)
                 ep = step["ep"]
                 if count:
-                    ctx.case(cc, nontrivial=True)
+                    # the runner on an empty list of names has nothing to do: counted, but not as a non-trivial case
+                    ctx.case(cc, nontrivial=not (ep == "runner" and not step["names"]))
                     ctx.count("entry-point:" + ep)
                 if ob.get("hang"):
                     fails.append(("spec", f"{ep}-hangs", cc, f"no return within the step timeout; processes seen: {len(ob.get('procs', []))}"))
@@ -636,9 +674,18 @@ class Judge:
                     ci, cm = canon_load(ob), canon_load({**m, "timeout": m.get("timeout")})
                     if count:
                         ctx.count("loader-outcome:" + (ob["outcome"] if ob["outcome"] != "raise" else "raise-" + ob["cls"]))
+                    spec_bad = False
+                    if valid:
+                        if count:
+                            ctx.spec_total += 1
+                        if not ans[it["q_spec"]]:
+                            spec_bad = True
+                            fails.append(("spec", loader_class(case, ob, expected[0]), cc,
+                                          f"observed {ci}; configured {describe(expected[0])}"))
                     if ci != cm:
                         if valid:
-                            fails.append(("mismatch", cc, ci, cm, "load_config: model != implementation"))
+                            if not spec_bad:      # a specification failure is the stronger report of the same step
+                                fails.append(("mismatch", cc, ci, cm, "load_config: model != implementation"))
                         elif count:
                             # malformed shapes are outside the property's domain: how the loader treats them may change
                             # freely; the comparison is reported, never judged
@@ -648,12 +695,6 @@ class Judge:
                                 lst.append({"config": case["config"], "implementation": ci, "model": cm})
                     elif not valid and count:
                         ctx.count("shape-stream:model-agrees")
-                    if valid:
-                        if count:
-                            ctx.spec_total += 1
-                        if not ans[it["q_spec"]]:
-                            fails.append(("spec", loader_class(case, ob, expected[0]), cc,
-                                          f"observed {ci}; configured {describe(expected[0])}"))
                 if "run_obs" in it:
                     label = "loader+transport" if ep == "loader" else ep
                     if ep == "loader" and count:
@@ -661,12 +702,13 @@ class Judge:
                         ctx.count("entry-point:loader+transport")
                     o = canon_run(it["run_obs"])
                     m = canon_run(run_of_sx(ans[it["q_rmodel"]]))
-                    if o != m:
-                        fails.append(("mismatch", cc, o, m, f"{label}: model != implementation"))
                     if count:
                         ctx.spec_total += 1
                         ctx.count("launches-per-run:%d" % min(len(o["procs"]), 5))
-                    if not ans[it["q_rspec"]]:
+                    if ans[it["q_rspec"]]:
+                        if o != m:
+                            fails.append(("mismatch", cc, o, m, f"{label}: model != implementation"))
+                    else:
                         fails.append(("spec", run_class(label, case, it, expected, res["denv"], src), cc,
                                       f"observed {short(o)}; configured {[describe(e) for e in expected]}; default env keys "
                                       f"{sorted(res['denv'])}"))
@@ -682,7 +724,7 @@ def zip_steps(case, res):
     else:
         configured = set(case["config"]["mcpServers"]) if case["kind"] == "valid" else set()
         for n in case.get("loader_names", []):
-            steps.append({"ep": "loader", "name": n, "launch": n in configured})
+            steps.append({"ep": "loader", "name": n, "launch": n in configured and case.get("locale", "utf-8") == "utf-8"})
         for n in case.get("cli_names", []):
             steps.append({"ep": "cli", "name": n})
         for l in case.get("runner_lists", []):
@@ -705,6 +747,21 @@ def short(o):
     return s if len(s) < 1500 else s[:1500] + "..."
 
 
+def is_mojibake(observed, expected):
+    """the observed strings are the expected ones with their UTF-8 bytes decoded through an 8-bit code page"""
+    flat = lambda l: [x for it in l for x in (it if isinstance(it, (tuple, list)) else (it,))]
+    o, x = flat(observed), flat(expected)
+    if o == x or len(o) != len(x):
+        return False
+    for enc in ("latin-1", "cp1252"):
+        try:
+            if all(a == b or a.encode(enc).decode("utf-8") == b for a, b in zip(o, x)):
+                return True
+        except (UnicodeError, AttributeError):
+            continue
+    return False
+
+
 def loader_class(case, ob, exp):
     if case["kind"] == "missing":
         return "missing-file-not-FileNotFoundError"
@@ -714,7 +771,12 @@ def loader_class(case, ob, exp):
     if e is None:
         return "unknown-server-name-not-ValueError"
     if ob["outcome"] == "raise":
+        if ob.get("type") in ("UnicodeDecodeError", "UnicodeEncodeError"):
+            return "config-file-read-with-locale-encoding"
         return "loader-raises-on-valid-config"
+    if ob["outcome"] == "ok" and is_mojibake([ob["command"]] + list(ob["args"] or []) + sorted((ob["env"] or {}).items()),
+                                             [e["command"]] + e["args"] + sorted(e["env"].items())):
+        return "config-file-read-with-locale-encoding"
     if ob["outcome"] != "ok":
         return "loader-does-not-return-parameters-and-timeout"
     if ob["command"] != e["command"]:
@@ -795,6 +857,8 @@ def shrink_failures(ctx, drv, rundir, witness):
         if case.get("kind") != "valid" or not isinstance(case.get("config"), dict):
             continue
         servers = case["config"].get("mcpServers", {})
+        if len(servers) <= 1:
+            continue
         step = case["step"]
         names = step.get("names", [step.get("name")])
         for n in dict.fromkeys(names):
@@ -802,6 +866,7 @@ def shrink_failures(ctx, drv, rundir, witness):
                 continue
             small = {"kind": "valid", "id": 20_000_000 + len(cands), "config": {"mcpServers": {n: servers[n]}},
                      "ser": case["ser"], "path_kind": "plain", "hostenv": case.get("hostenv", {}), "dims": [],
+                     "backend": case.get("backend", "pydantic"), "locale": case.get("locale", "utf-8"),
                      "only": ({"ep": "runner", "names": [n]} if step["ep"] == "runner" else {**step, "name": n})}
             cands.append((klass, i, small))
     if not cands:
@@ -826,7 +891,7 @@ def record(ctx, fails):
             ctx.mismatch(f[1], f[2], f[3], f[4])
 
 
-REQUIRED_BUCKETS = ["servers:1", "servers:4", "args:absent", "args:empty-list", "arg:empty-string", "arg:unicode", "arg:quote",
+REQUIRED_BUCKETS = ["backend:pydantic", "backend:fallback", "process-locale:utf-8", "process-locale:legacy-ascii", "servers:1", "servers:4", "args:absent", "args:empty-list", "arg:empty-string", "arg:unicode", "arg:quote",
                     "arg:whitespace", "env:absent", "env:null", "env:empty", "timeout:absent", "timeout:int", "timeout:float",
                     "timeout:string-number", "extra-server-keys:yes", "extra-top-keys:yes", "file:raw-utf8", "file:ascii-escapes",
                     "witness:answers", "witness:refuses", "hostenv:patched", "source:missing-file", "source:invalid-json",
@@ -912,14 +977,16 @@ def run(ctx):
                 "spaces, quotes, Unicode (BMP + astral, combining, RTL), empty strings, shell metacharacters, 300-char strings; args "
                 "absent/[]/1..5; env absent/null/{}/1..5 values; timeout absent/null/int/float/string-number; extra and decoy keys "
                 "(Command, ARGS, mcpservers ...); file written with \\u escapes or raw UTF-8, compact or indented; config path plain or "
-                "with space+Unicode; host environment patched (TERM/SHELL/USER/LOGNAME/HOME unset, empty, '()...' values) - x the "
+                "with space+Unicode; host environment patched (TERM/SHELL/USER/LOGNAME/HOME unset, empty, '()...' values); validation back "
+                "end Pydantic or fallback (20%); process locale UTF-8 or legacy ASCII (12%, loader only) - x the "
                 "loader (every configured name + an unknown one; what it returns is also launched through the library's "
                 "stdio_client + send_initialize), the CLI main() (--config F --server NAME, every configured name + an unknown "
                 "one) and run_command (one list of distinct names: all / reversed+unknown / shuffled+unknown inside / single / only unknown / "
                 "empty); witness children that answer or refuse initialize. Malformed classes: missing file (2), invalid JSON "
                 "(22 texts incl. truncations), unknown name (in every valid case + zero-server files). Loader-only shape stream "
                 "(70 malformed shapes) for the model tie. One counted case = one run of one entry point on one (file, name(s)); "
-                "distinct = distinct (file content, host patch, step); all counted cases call the real code")
+                "distinct = distinct (file content, host patch, step); non-trivial = every run except the runner on an empty name list; "
+                "all counted cases call the real code")
     return lib.finish(ctx, TRUSTED, ASSUME)
 
 
